@@ -61,7 +61,7 @@ def run(subject, options):
                                     f"{str(got)[:200]}, source class -> {str(want)[:200]}")
                     if len(problems) > 3:
                         return problems
-    if subject == "OptCachedCounter":
+    if hasattr(m_opt, "entered"):
         ref = cls()
         for rnd in range(2):
             for e in EXPRS:
